@@ -1,19 +1,20 @@
 #!/bin/sh
-# tools/seed_intake.sh C03 : verify a sub-agent's seeded change in its scratch worktree /tmp/seed_<id>
+# tools/seed_intake.sh C03 [round suffix] : (round 2: tools/seed_intake.sh C03 2 b -> /tmp/seed2_C03, seeded/C03b)
+# verify a sub-agent's seeded change in its scratch worktree /tmp/seed_<id>
 # (demo fails with the change, passes without; pinned tests still pass) and store it under /verif/seeded/<id>/
 set -e
-ID=$1; WT=/tmp/seed_$ID; OUT=/verif/seeded/$ID
+ID=$1; ROUND=${2:-}; SUF=${3:-}; WT=/tmp/seed${ROUND}_$ID; OUT=/verif/seeded/$ID$SUF
 mkdir -p $OUT
 cd $WT
 git diff -- . ':(exclude)seed_demo*' > $OUT/patch.diff
 for f in seed_demo.py seed_demo.cpp seed_demo.sh; do [ -f $f ] && cp $f $OUT/; done
 run_demo() { if [ -f seed_demo.sh ]; then sh seed_demo.sh; else PYTHONPATH=$WT/py /venv/bin/python seed_demo.py; fi; }
 set +e
-run_demo > /tmp/seed_${ID}_with.log 2>&1; WITH=$?
+run_demo > /tmp/seed_${ID}${SUF}_with.log 2>&1; WITH=$?
 git stash -q
-run_demo > /tmp/seed_${ID}_without.log 2>&1; WITHOUT=$?
+run_demo > /tmp/seed_${ID}${SUF}_without.log 2>&1; WITHOUT=$?
 git stash pop -q
 set -e
 echo "demo with change: exit $WITH ; without change: exit $WITHOUT"
 VERIF_REPO=$WT python3 /verif/tools/baseline.py | tail -3
-echo "$WITH $WITHOUT" > /tmp/seed_${ID}_codes
+echo "$WITH $WITHOUT" > /tmp/seed_${ID}${SUF}_codes
